@@ -448,7 +448,9 @@ func (b *Buffer) mergeClusters(start, end int) {
 
 	// Extend start
 	if cluster != b.Info[start].Cluster {
-		for b.idx < start && b.Info[start-1].Cluster == b.Info[start].Cluster {
+		// idx is -1 after a reverse lookup was applied (an unsigned UINT_MAX in
+		// HarfBuzz, for which the test below is false)
+		for uint(b.idx) < uint(start) && b.Info[start-1].Cluster == b.Info[start].Cluster {
 			start--
 		}
 	}
